@@ -21,6 +21,8 @@ Ctl ==
   \/ \E s \in Streams, c \in RstCodes : ASendRst(s, c) /\ hist' = Append(hist, Rec("rst", s, c, 0, FALSE, "-", 0))
   \* (PUSH_PROMISE only makes sense from the server: the harness skips it in the other direction)
   \/ \E s \in Streams, p \in Promised : ASendPush(s, p) /\ hist' = Append(hist, Rec("push", s, p, 0, FALSE, "-", 0))
+  \* (ASendPushOpen is left to the fixed schedules of the check: with the reader the relay uses, a PUSH_PROMISE completed by
+  \*  CONTINUATION ends the direction - a known finding - and every schedule that contains one would observe nothing else)
   \/ \E s \in Streams : ASendPrio(s) /\ hist' = Append(hist, Rec("prio", s, 0, 0, FALSE, "-", 0))
   \/ ASendUnknown /\ hist' = Append(hist, Rec("unknown", 0, 0, 0, FALSE, "-", 0))
   \/ ~aClosed /\ ASendSettings /\ hist' = Append(hist, Rec("settings", 0, 0, 0, FALSE, "-", 0))
